@@ -76,13 +76,15 @@ def match_close(text, pos):
     raise ExtractionBreak("unbalanced %r at offset %d" % (op, pos))
 
 
-def split_top(text, sep=","):
-    """Split at top-level separators (outside (), [], {}, <>)."""
+def split_top(text, sep=",", angle=False):
+    """Split at top-level separators (outside (), [], {} and, with angle=True, <>)."""
     parts, depth, cur = [], 0, []
+    op = "([{<" if angle else "([{"
+    cl = ")]}>" if angle else ")]}"
     for ch in text:
-        if ch in "([{":
+        if ch in op:
             depth += 1
-        elif ch in ")]}":
+        elif ch in cl:
             depth -= 1
         if ch == sep and depth == 0:
             parts.append("".join(cur))
